@@ -51,5 +51,9 @@ MUTANTS = [
     m("c01-twin-random-length-unpacked", None, "        n_step = rng.integers(*self.n_step_range)\n", "        lower, upper = self.n_step_range\n        n_step = rng.integers(lower, upper)\n", twin=True),
     m("c01-break-on-none-tree", "R12", "            if terminate:\n                break\n            # progressively sample new state", "            if new_tree is None:\n                break\n            # progressively sample new state", key="subtree-used-without-flag-test"),
     m("c01-inner-terminate-ignored", "R12", "        if terminate:\n            return terminate, None, None\n        # build 'outer' subtree", "        if inner_tree is None:\n            return terminate, None, None\n        # build 'outer' subtree", key="subtree-used-without-flag-test"),
-    m("c01-twin-terminate-else", None, "            if terminate:\n                break\n            # progressively sample new state", "            if terminate is True:\n                break\n            # progressively sample new state", twin=True),
+    m("c01-terminate-identity-test", "R12", "            if terminate:\n                break\n            # progressively sample new state", "            if terminate is True:\n                break\n            # progressively sample new state", key="subtree-used-without-flag-test"),  # the criterion returns numpy booleans: `np.True_ is True` is False
+    m("c01-twin-terminate-eq-true", None, "            if terminate:\n                break\n            # progressively sample new state", "            if terminate == True:  # noqa: E712\n                break\n            # progressively sample new state", twin=True),
+    m("c01-termination-needs-steps", "R13", '            if self._termination_criterion(tree, neg_subtree, pos_subtree):\n                break\n', '            if stats["n_step"] > 2 and self._termination_criterion(tree, neg_subtree, pos_subtree):\n                break\n'),
+    m("c01-termination-negated-exempt", "R13", '            if self._termination_criterion(tree, neg_subtree, pos_subtree):\n                break\n', '            if depth == 0:\n                continue\n            if self._termination_criterion(tree, neg_subtree, pos_subtree):\n                break\n'),
+    m("c01-twin-termination-named", None, '            if self._termination_criterion(tree, neg_subtree, pos_subtree):\n                break\n', '            stop = self._termination_criterion(tree, neg_subtree, pos_subtree)\n            if stop:\n                break\n', twin=True),
 ]
